@@ -104,20 +104,25 @@ func (l *Lexer) Position() token.Position {
 // Next returns the next Token from the input that is being lexed.
 func (l *Lexer) Next() (token.Token, error) {
 	var tok token.Token
-	l.skipTabsAndSpaces()
-	l.tokenStartPosition = l.Position()
+	// Skip any number of comments in a loop (a recursive call per comment would
+	// exhaust the native stack on an input with very many comments)
+	for {
+		l.skipTabsAndSpaces()
+		l.tokenStartPosition = l.Position()
 
-	// skip single-line comments
-	if l.ch == rune('#') ||
-		(l.ch == rune('/') && l.peekChar() == rune('/')) {
-		l.skipComment()
-		return l.Next()
-	}
+		// skip single-line comments
+		if l.ch == rune('#') ||
+			(l.ch == rune('/') && l.peekChar() == rune('/')) {
+			l.skipComment()
+			continue
+		}
 
-	// multi-line comments
-	if l.ch == rune('/') && l.peekChar() == rune('*') {
-		l.skipMultiLineComment()
-		return l.Next()
+		// multi-line comments
+		if l.ch == rune('/') && l.peekChar() == rune('*') {
+			l.skipMultiLineComment()
+			continue
+		}
+		break
 	}
 
 	if l.prevToken.Type == token.EOF {
